@@ -160,8 +160,15 @@ func (y *FS) lookup(name string) (*node, error) {
 	return n, nil
 }
 
+// Yield, if set, is called at the start of every mutating operation: where a real disk would make the
+// caller wait, the harness may let another goroutine run (core.Yield).
+var Yield func()
+
 // begin registers a mutating op; returns injected error if any.
 func (y *FS) begin(kind, p, p2 string, size int) (Op, error) {
+	if Yield != nil {
+		Yield()
+	}
 	op := Op{N: y.ops, Kind: kind, Path: path.Clean("/" + p), Size: size}
 	if p2 != "" {
 		op.Path2 = path.Clean("/" + p2)
